@@ -8,6 +8,7 @@ import Umya.Lemmas.Passes
 import Umya.Lemmas.CleanAst
 import Umya.Lemmas.ValInv
 import Umya.Lemmas.TablesGen
+import Umya.Lemmas.FormulaGen
 namespace Umya.Thm.C09
 open Umya.Coord Umya.Dec Umya.Formula
 
@@ -282,5 +283,14 @@ example : exampleRef.WF ∧ exampleRef.text = "'It''s'!$B3:XFD$1048576".toList :
     helper/formula.rs as regenerated on this run. -/
 theorem C09_tables_match_source : Umya.Gen.formula_errors.map String.toList = Umya.Formula.errors :=
   Umya.Gen.gen_formula_errors
+
+
+/-- **Tie to the source (T).**  `translate_part` (a column / row part moved by an offset unless locked; `None`
+    when it leaves `1..=max`) and the grid limits `MAX_COLUMN_NUM` / `MAX_ROW_NUM` of helper/formula.rs, as
+    regenerated from the source on this run, are the model's `translatePart`, `maxCol`, `maxRow`. -/
+theorem C09_kernels_match_source (p : Umya.Formula.Part) (d : Int) (max : Nat) :
+    (Umya.Gen.translate_part ((p.1 : Int), p.2) d max).map (fun q => (q.1.toNat, q.2)) = Umya.Formula.translatePart p d max ∧
+    Umya.Gen.max_column_num = Umya.Formula.maxCol ∧ Umya.Gen.max_row_num = Umya.Formula.maxRow :=
+  ⟨Umya.Gen.gen_translate_part p d max, Umya.Gen.gen_grid_limits.1, Umya.Gen.gen_grid_limits.2⟩
 
 end Umya.Thm.C09
